@@ -12,6 +12,7 @@ import (
 	"github.com/thushan/olla/internal/core/domain"
 	"io"
 	"log/slog"
+	"net/http"
 	"net/url"
 	"strings"
 	"time"
@@ -114,6 +115,12 @@ func (propC08) Gen(seed uint64, tier string, idx int) *Plan2 {
 		}
 		ops = append(ops, Op{K: "W>"}, Op{K: "A"}, Op{K: "S"}, Op{K: "A"}) // liveness tail: wait, ask, succeed, ask
 		p.Tasks = [][]Op{ops}
+		if kind == "health" && r.n(2) == 0 {
+			// the breaker as the checker uses it: through HealthClient.Check, which asks, probes and reports in
+			// one call ("A" followed by "F"/"S" becomes one check with that outcome)
+			p.Params["via"] = "client"
+			p.Sub += "/via-client"
+		}
 	case mode == 2 && kind == "unifier" && r.n(2) == 0:
 		// the breaker as the registry uses it: through LifecycleUnifier.UnifyModels (ask + success in one) and
 		// RecordEndpointFailure, with some callers whose context has already ended (the registry unifies on
@@ -426,6 +433,10 @@ func (propC08) Exec(p *Plan2, res *Result2) {
 		c08Lifecycle(p, res)
 		return
 	}
+	if p.Str("via", "") == "client" {
+		c08ViaClient(p, res)
+		return
+	}
 	api, rp := c08Build(p)
 	defer api.close()
 	kind := rp.kind
@@ -706,6 +717,93 @@ func c08Lifecycle(p *Plan2, res *Result2) {
 		res.add("C08", "C08/unifier/shut-for-ever", "after the endpoint had been working for %d open periods (one caller per period) unification is still refused: %v", rounds, res.Hist)
 	}
 	res.Steps = len(firstOr(p.Tasks))
+	res.Sig = histHash(res.Hist, nil)
+	res.Nontrivial = true
+}
+
+// ---- the health breaker behind HealthClient.Check ----------------------------------
+
+type c08Stub struct {
+	called bool
+	ok     bool
+}
+
+func (c *c08Stub) Do(req *http.Request) (*http.Response, error) {
+	c.called = true
+	code := 200
+	if !c.ok {
+		code = 500 // an answered probe with an error status: a failed check, and nothing Check retries
+	}
+	return &http.Response{StatusCode: code, Status: fmt.Sprintf("%d x", code), Proto: "HTTP/1.1", ProtoMajor: 1, ProtoMinor: 1,
+		Header: http.Header{"Content-Type": []string{"application/json"}}, Body: io.NopCloser(strings.NewReader(`{"status":"ok"}`)), Request: req}, nil
+}
+
+func c08ViaClient(p *Plan2, res *Result2) {
+	cb := health.NewCircuitBreaker()
+	stub := &c08Stub{}
+	hc := health.NewHealthClient(stub, cb)
+	u, _ := url.Parse("http://b1:8000")
+	hu, _ := url.Parse("http://b1:8000/health")
+	ep := &domain.Endpoint{Name: "b1", URL: u, URLString: u.String(), HealthCheckURL: hu, HealthCheckURLString: hu.String(), CheckTimeout: time.Second, CheckInterval: 5 * time.Second, Type: "vllm"}
+	rp := refParams{kind: "health", T: health.DefaultCircuitBreakerThreshold, D: health.DefaultCircuitBreakerTimeout}
+	rf := newRef(rp)
+	start := time.Now()
+	now := func() time.Duration { return time.Since(start) }
+	ops := firstOr(p.Tasks)
+	for i := 0; i < len(ops); i++ {
+		op := ops[i]
+		switch op.K {
+		case "F":
+			cb.RecordFailure(hu.String())
+			rf.fail(now())
+			res.Hist = append(res.Hist, fmt.Sprintf("%d t=%s failure", i, now()))
+		case "S":
+			cb.RecordSuccess(hu.String())
+			rf.succeed(now())
+			res.Hist = append(res.Hist, fmt.Sprintf("%d t=%s success", i, now()))
+		case "A":
+			stub.called, stub.ok = false, true
+			if i+1 < len(ops) && (ops[i+1].K == "F" || ops[i+1].K == "S") {
+				stub.ok = ops[i+1].K == "S"
+				i++
+			}
+			_, err := hc.Check(context.Background(), ep)
+			got := stub.called
+			res.Hist = append(res.Hist, fmt.Sprintf("%d t=%s check(backend ok=%v) -> probed=%v err=%v", i, now(), stub.ok, got, err != nil))
+			if ok, expect := rf.ask(now(), got); !ok {
+				verdict := "refused-but-must-admit"
+				if got {
+					verdict = "admitted-but-must-refuse"
+				}
+				res.add("C08", "C08/health/"+verdict, "history %v: the check at step %d probed=%v; the reference allows: %s", res.Hist, i, got, expect)
+				return
+			}
+			if got {
+				res.probe("c08.check-probed")
+				if stub.ok {
+					rf.succeed(now())
+				} else {
+					rf.fail(now())
+				}
+			} else {
+				res.probe("c08.check-refused")
+			}
+		default:
+			switch op.K {
+			case "W<":
+				time.Sleep(rp.D / 3)
+			case "W>":
+				time.Sleep(rp.D + time.Second/2)
+			case "Wp":
+				time.Sleep(1100 * time.Millisecond)
+			case "W6":
+				time.Sleep(6 * time.Minute)
+				rf.idle()
+			}
+			res.Hist = append(res.Hist, fmt.Sprintf("%d t=%s wait %s", i, now(), op.K))
+		}
+	}
+	res.Steps = len(ops)
 	res.Sig = histHash(res.Hist, nil)
 	res.Nontrivial = true
 }
